@@ -150,6 +150,9 @@ class E:
             return E('at', (self, idx))
         if isinstance(idx, slice) and idx == slice(None):
             return self
+        if isinstance(idx, tuple) and len(idx) == 2 and idx[0] == slice(None) and idx[1] is None:
+            from shim import Col
+            return Col(self)
         raise TraceAbort('unsupported index %r on array expression' % (idx,))
 
     def __setitem__(self, idx, val):
@@ -331,3 +334,84 @@ def walk(e, seen=None):
         for a in n.args:
             if isinstance(a, E):
                 stack.append((a, False))
+
+
+# ---------------------------------------------------------------------------------------------------------------
+# Fingerprints: a hash of an expression modulo associativity / commutativity of + and *, x*x = x**2, a - b = a + (-b),
+# a/b/c = a/(b*c).  Used ONLY to recognise a local of the pinned tree that the current source has renamed or inlined
+# (emit.py); never to decide that two definitions are equal - the generated Lean always prints the current expression.
+import hashlib as _hashlib
+
+
+def _h(x):
+    return _hashlib.sha256(repr(x).encode()).hexdigest()[:16]
+
+
+def _nf(e, memo):
+    """normal form: sorted tuple of terms (coef, ((atom, exponent), ...)); no distribution of products over sums"""
+    if not isinstance(e, E):
+        return ((Fraction(1), ((('lit', repr(e)), 1),)),)
+    if e.uid in memo:
+        return memo[e.uid]
+
+    def atom_of(nfv):
+        return ('S', _h(nfv))
+
+    def as_mono(nfv):
+        """(coef, {atom: exp}) for a single term, a sum becomes one atom"""
+        if len(nfv) == 1:
+            c, fs = nfv[0]
+            return c, dict(fs)
+        if len(nfv) == 0:
+            return Fraction(0), {}
+        return Fraction(1), {atom_of(nfv): 1}
+
+    def mono(c, d):
+        if c == 0:
+            return ()
+        return ((c, tuple(sorted((k, v) for k, v in d.items() if v != 0))),)
+
+    def merge(a, b, sb=1):
+        acc = {}
+        for c, fs in a:
+            acc[fs] = acc.get(fs, 0) + c
+        for c, fs in b:
+            acc[fs] = acc.get(fs, 0) + sb * c
+        return tuple(sorted(((c, fs) for fs, c in acc.items() if c != 0), key=repr))
+
+    op = e.op
+    if op == 'num':
+        r = mono(e.args[0], {})
+    elif op == 'sym':
+        r = mono(Fraction(1), {('sym', e.args[0]): 1})
+    elif op == 'neg':
+        r = tuple((-c, fs) for c, fs in _nf(e.args[0], memo))
+    elif op in ('add', 'sub'):
+        r = merge(_nf(e.args[0], memo), _nf(e.args[1], memo), 1 if op == 'add' else -1)
+    elif op in ('mul', 'div'):
+        ca, da = as_mono(_nf(e.args[0], memo))
+        cb, db = as_mono(_nf(e.args[1], memo))
+        s = 1 if op == 'mul' else -1
+        if op == 'div' and cb == 0:
+            r = mono(Fraction(1), {('div0', _h(_nf(e.args[0], memo))): 1})
+        else:
+            d = dict(da)
+            for k, v in db.items():
+                d[k] = d.get(k, 0) + s * v
+            r = mono(ca * cb if s == 1 else ca / cb, d)
+    elif op == 'pow':
+        c, d = as_mono(_nf(e.args[0], memo))
+        k = e.args[1]
+        if c == 0 and k <= 0:
+            r = mono(Fraction(1), {('pow0', k): 1})
+        else:
+            r = mono(c ** k, {a: v * k for a, v in d.items()})
+    else:
+        kids = tuple(_h(_nf(a, memo)) if isinstance(a, E) else repr(a) for a in e.args)
+        r = mono(Fraction(1), {(op, kids): 1})
+    memo[e.uid] = r
+    return r
+
+
+def fingerprint(e, memo=None):
+    return _h(_nf(e, {} if memo is None else memo))
